@@ -24,12 +24,14 @@ class load_visitor {
     template <class T>
     void visit(immutable_vector<T>& vec) {
         vec.load(m_ifs);
+        XCDAT_THROW_IF(m_ifs.fail(), "Failed to read the input file (truncated?)");
     }
 
     template <class T>
     void visit(T& obj) {
         if constexpr (std::is_pod_v<T>) {
             m_ifs.read(reinterpret_cast<char*>(&obj), sizeof(T));
+            XCDAT_THROW_IF(m_ifs.fail(), "Failed to read the input file (truncated?)");
         } else {
             obj.visit(*this);
         }
